@@ -119,3 +119,29 @@ def f4(run, v, entry, exc):
     if v["kind"] in ("rows_mismatch", "tree_semantics", "bad_payload") and entry is not None:
         return "commute:Projection>Deduplication:full" in entry.events
     return False
+
+
+CONTENT_KINDS = ("rows_mismatch", "tree_semantics", "merge_semantics", "bad_payload", "exec_exception",
+                 "unexpected_exception", "keys_mismatch", "select_incoherent", "conform_exception")
+
+
+def _sort_over_chain_missing_cols(rel):
+    """A Select over a chain whose sort needs columns the chain operands no longer have."""
+    from lsst.daf.relation import BinaryOperationRelation, Chain, Sort, UnaryOperationRelation
+
+    for n in _walk(rel):
+        if isinstance(n, UnaryOperationRelation) and isinstance(n.operation, Sort):
+            t = n.target
+            if isinstance(t, BinaryOperationRelation) and isinstance(t.operation, Chain):
+                if not set(n.operation.columns_required) <= set(t.columns):
+                    return True
+    return False
+
+
+@recogniser("F8")
+def f8(run, v, entry, exc):
+    """chain(...).sorted([b]).with_only_columns({a}): the SQL engine pushes the projection inside the chain,
+    beneath the sort that still needs b."""
+    if v["kind"] not in CONTENT_KINDS or entry is None:
+        return False
+    return _sort_over_chain_missing_cols(entry.rel)
